@@ -544,8 +544,8 @@ static long long do_op(op_t *o) {
     case OP_TOUCH: { char f[200]; static int ctr; snprintf(f, sizeof(f), "%s/f%d", paths[a[0]], ctr++); in_harness_io++; int fd = open(f, O_CREAT | O_WRONLY, 0600); if (fd >= 0) __real_close(fd); in_harness_io--; ret = fd >= 0 ? 0 : -errno; break; }
     case OP_CHILD_SPAWN: { pid_t p = fork(); if (p == 0) { for (;;) pause(); } children[a[0] & 7] = p; ret = p > 0 ? 0 : -errno; break; }
     case OP_CHILD_KILL: { pid_t p = children[a[0] & 7]; if (p > 0) { kill(p, SIGKILL); } ret = 0; break; }
-    case OP_PID_REG: { m_src_pid_t p = { children[a[1] & 7] > 0 ? children[a[1] & 7] : (pid_t)a[4], 0 }; ret = m_mod_src_register_pid(H(a[0]), &p, (m_src_flags)a[2], ud_ptr(a[3], a[2] & ~M_SRC_AUTOFREE)); break; }
-    case OP_PID_DEREG: { m_src_pid_t p = { children[a[1] & 7] > 0 ? children[a[1] & 7] : (pid_t)a[4], 0 }; ret = m_mod_src_deregister_pid(H(a[0]), &p); break; }
+    case OP_PID_REG: { m_src_pid_t p = { children[a[1] & 7] > 0 ? children[a[1] & 7] : (a[4] == 0 ? getpid() : (pid_t)a[4]), 0 }; ret = m_mod_src_register_pid(H(a[0]), &p, (m_src_flags)a[2], ud_ptr(a[3], a[2] & ~M_SRC_AUTOFREE)); break; }
+    case OP_PID_DEREG: { m_src_pid_t p = { children[a[1] & 7] > 0 ? children[a[1] & 7] : (a[4] == 0 ? getpid() : (pid_t)a[4]), 0 }; ret = m_mod_src_deregister_pid(H(a[0]), &p); break; }
     case OP_TASK_REG: { taskarg_t *t = &TASKS[a[1] & 63]; t->sleep_us = (int)a[4]; t->retval = (int)a[5]; m_src_task_t k = { (int)a[1], task_fn }; ret = m_mod_src_register_task(H(a[0]), &k, (m_src_flags)(a[2] & ~M_SRC_AUTOFREE), t); break; }
     case OP_TASK_DEREG: { m_src_task_t k = { (int)a[1], task_fn }; ret = m_mod_src_deregister_task(H(a[0]), &k); break; }
     case OP_THRESH_REG: { m_src_thresh_t t = { (uint64_t)a[1], a[2] / 1000.0 }; ret = m_mod_src_register_thresh(H(a[0]), &t, (m_src_flags)(a[3] & ~M_SRC_AUTOFREE), ud_ptr(a[4], 0)); break; }
